@@ -17,7 +17,7 @@ from fractions import Fraction as Fr
 from lib.rat import R, F, close
 
 ID = "C13"
-QUICK_N = 700
+QUICK_N = 1200
 THOROUGH_N = 20000
 QUICK_BUDGET_S = 80
 THOROUGH_BUDGET_S = 900
@@ -275,6 +275,10 @@ def gen_writeread(rng):
     game = rng.choice(WR_GAMES)
     # rate: r = p / q small; beat lengths 60000/bpm are chosen so that everything stays on the integer-ms grid for osu
     p, q = rng.choice([(1, 1), (2, 1), (1, 2), (3, 2), (2, 3), (3, 4), (4, 3), (5, 4), (4, 5), (3, 1), (1, 4)])
+    if game in ("osu", "qua"):
+        # these writers truncate times to whole milliseconds (`int(...)`): keep r an exact double so that no rated
+        # time lands one ulp below an integer (a float boundary of the *writer*, DESIGN §3 — C01/C06's business)
+        p, q = rng.choice([(1, 1), (2, 1), (1, 2), (3, 2), (3, 4), (5, 4), (3, 1), (1, 4), (5, 2), (7, 4)])
     if game == "bms":
         # #BPMxx is written with 3 decimals (D06, C05's business): keep 60000/bl and its rated image on that grid
         p, q = rng.choice([(1, 1), (2, 1), (1, 2), (5, 4), (4, 5), (1, 4), (5, 2), (2, 5)])
@@ -390,8 +394,14 @@ def valid(case):
             beats = [b["beat"] for b in case["bpms"]]
             if any(x >= y for x, y in zip(beats[:-1], beats[1:])):
                 return False
-            p = F(case["r"]).numerator
+            p, q = F(case["r"]).numerator, F(case["r"]).denominator
             if any(b["bl"] % (48 * p) for b in case["bpms"]) or case["t0"] % (48 * p):
+                return False
+            if case["keys"] not in (4, 7) or (case["game"] == "sm" and case["keys"] != 4):
+                return False
+            if case["game"] in ("osu", "qua") and q & (q - 1):
+                return False
+            if case["game"] == "bms" and (case["t0"] != 0 or any(f not in (1, 2, 4, 5, 8, 10, 16, 20, 25, 40, 50) for f in [q] + [b["bl"] // (48 * p) for b in case["bpms"]])):
                 return False
             for h in case["hits"]:
                 if F(h["beat"]) < 0 or (F(h["beat"]) * 48).denominator != 1 or not (0 <= h["col"] < case["keys"]):
